@@ -33,7 +33,7 @@ def main():
         shutil.rmtree(tree, ignore_errors=True)
         sh("git -C /repo worktree prune; git -C /repo worktree add -f --detach %s HEAD" % tree)
         meta = {"property": pid, "mutant": k, "repo_head": sh("git -C /repo rev-parse --short HEAD")[1].strip()}
-        rc, out = sh("/venv/bin/python %s" % demo, cwd=tree)
+        rc, out = sh("/venv/bin/python %s" % demo, cwd=tree, env={"PYTHONPATH": tree})
         meta["demo_on_clean_tree"] = {"exit": rc, "tail": out[-300:]}
         rc, out = sh("git apply %s" % patch, cwd=tree)
         meta["applies"] = rc == 0
@@ -42,7 +42,7 @@ def main():
         else:
             rc, out = sh("/venv/bin/python -m pytest -q -p no:cacheprovider 2>&1 | tail -3", cwd=tree)
             meta["tests"] = out.strip().split("\n")[-1]
-            rc, out = sh("/venv/bin/python %s" % demo, cwd=tree)
+            rc, out = sh("/venv/bin/python %s" % demo, cwd=tree, env={"PYTHONPATH": tree})
             meta["demo_on_mutated_tree"] = {"exit": rc, "tail": out[-300:]}
             meta["checks"] = {}
             for c in checks:
